@@ -1,5 +1,6 @@
 import FinamModel.DriverUtil
 import FinamModel.Validate
+import FinamModel.Units
 /-! Line-protocol handlers for C19 (validation), C17 (units), C07 (metadata exchange). -/
 namespace Finam.Driver
 open Lean
@@ -36,8 +37,56 @@ def handle (j : Json) : Json :=
     ("exchanged", jNat tr.exchanged.length)]
 end C19
 
+namespace C17
+open Finam.Units
+
+def parseOp (j : Json) : Option (Op Nat) :=
+  match arr j with
+  | [k] => if asStr k = "clear" then some .clear else none
+  | [k, a, b] =>
+    match asStr k with
+    | "compat" => some (.compat (asNat a) (asNat b))
+    | "equiv" => some (.equiv (asNat a) (asNat b))
+    | _ => none
+  | [k, v, a, b] =>
+    match asStr k with
+    | "prepare" => some (.prepare (asRat v) (if a.isNull then none else some (asNat a)) (asNat b))
+    | _ => none
+  | [k, v, a, b, c] =>
+    match asStr k with
+    | "to_units" => some (.toUnits (asRat v) (asNat a) (asNat b) (asBool c))
+    | "link" => some (.link (asRat v) (asNat a) (asNat b) (if c.isNull then none else some (asNat c)))
+    | _ => none
+  | _ => none
+
+def jAns : Ans Nat → Json
+  | .bool b => Json.mkObj [("b", Json.bool b)]
+  | .value v l c => Json.mkObj [("v", jRat v), ("label", jNat l),
+      ("conv", match c with | none => Json.null | some (a, b) => Json.arr #[jNat a, jNat b])]
+  | .err e => jErr e
+  | .unit => Json.null
+
+/-- C17: a query history through the memo and through the unmemoised functions -/
+def handle (j : Json) : Json :=
+  let reps := (getArr j "reps").map asStr
+  let unitOf : Nat → U := fun k => ((reps[k]?).bind unitOfName).getD one
+  let ops := (getArr j "ops").filterMap parseOp
+  let r := runMemo unitOf closeTol [] ops
+  Json.mkObj [
+    ("memo", jList jAns r.1),
+    ("pure", jList (fun op => jAns (stepPure unitOf closeTol op)) ops),
+    ("cache", jList (fun e => Json.arr #[jNat e.1.1, jNat e.1.2, Json.bool e.2.1, Json.bool e.2.2]) r.2),
+    ("nops", jNat ops.length)]
+
+/-- the catalogue table: name, dimension exponents, factor, offset -/
+def table (_ : Json) : Json :=
+  Json.mkObj [("table", jList (fun e => Json.arr #[Json.str e.1, jList jInt e.2.dim.toList, jRat e.2.factor, jRat e.2.offset]) catalogue)]
+end C17
+
 def handlersMeta : List (String × (Json → Json)) := [
-  ("c19", C19.handle)
+  ("c19", C19.handle),
+  ("c17", C17.handle),
+  ("c17table", C17.table)
 ]
 
 end Finam.Driver
